@@ -182,6 +182,8 @@ def episode_job(job_id, spec, variant, n, B, mode, source_filter=None, nsteps=No
             for b in range(B):
                 ctx.prove(E, f"{spec}[{variant}] row{b}: solution complete when the environment reports done", orcs[b].complete(sts[b]), cex_builder)
                 for name, v in sts[b].viol.items():
+                    if name.startswith("canonical:"):
+                        continue  # documented pruning of pointless moves, not a problem constraint
                     ctx.prove(E, f"{spec}[{variant}] row{b}: constraint {name}", s_not(v), cex_builder)
         if mode == "C03":
             A = T.Tensor([[acts[t][b] for t in range(len(acts))] for b in range(B)], T.int64)
